@@ -13,7 +13,9 @@ ID = "C08"
 LEVEL = "exploration"
 STATUSES = list(range(1, 19)) + [19, 42, 255, 2**31 - 1, -1]
 OPS = ["get", "multiget", "getnext", "multigetnext", "set", "multiset", "bulkget",
-       "walk:0", "walk:1", "multiwalk:1", "bulkwalk:0", "bulkwalk:1", "table:1", "bulktable:0"]
+       "walk:0", "walk:1", "multiwalk:1", "bulkwalk:0", "bulkwalk:1", "table:1", "bulktable:0",
+       # lenient walks tolerate FaultySNMPImplementation only: an error-status must surface all the same
+       "walk:1:warn", "multiwalk:1:warn"]
 PROTOS = [
     {"version": "v1", "community": "public"},
     {"version": "v2c", "community": "public"},
@@ -75,6 +77,13 @@ def simplify(plan: dict):
 
 def _op(opname: str) -> dict:
     k = opname.split(":")[0]
+    op = _op_table(k)
+    if opname.count(":") == 2:
+        op = dict(op, errors=opname.split(":")[2])
+    return op
+
+
+def _op_table(k: str) -> dict:
     o1, o2, o3 = BASE + (1, 1, 1), BASE + (1, 1, 2), BASE + (1, 2, 1)
     return {
         "get": {"op": "get", "oid": o1},
